@@ -232,6 +232,11 @@ non-empty text / `to_iso_datetime`); `parse = none` is a ValueError -/
 structure DTCodec (DT : Type) where
   parse : Bytes → Option DT
   render : DT → Bytes
+  /-- what `check_option_values` (requesthandler/base.py:137-152) does with a date-time given as
+  availabilityStartTime: `none` = ValueError (a time of day, a UTC offset of 24 h or more),
+  `some d'` = accepted, `d'` being `d` made aware (a text without zone is taken as UTC).
+  Carriers without naive values (C19's `AwareDT`) use the default. -/
+  check : DT → Option DT := some
 
 /-- C19's law, used here as a named hypothesis -/
 def DtTextRoundTrip {DT : Type} (C : DTCodec DT) : Prop := ∀ d, C.parse (C.render d) = some d
@@ -570,5 +575,308 @@ def mediaQuery (tbl : List OptionRow) (use : Nat) (dflt : Opts DT) (o : Opts DT)
   renderQuery (applyOverrides (genParams C tbl (some use) ["encrypted", "mode"] true dflt o) overrides)
 
 end container
+
+/-! ## what a manifest template and the request handlers do to the options before URLs are built
+
+Anchors: `dashlive/server/requesthandler/base.py:91-190` (`calculate_options`,
+`check_option_values`), `dashlive/server/options/container.py:218-262`
+(`remove_unsupported_features`, `remove_unused_parameters`),
+`dashlive/server/requesthandler/manifest_requests.py:132-153` (`ServeManifest.get`),
+`dashlive/server/manifests.py` (`manifest_map`, generated into `Gen/Manifests.lean`),
+`dashlive/server/requesthandler/manifest_context.py:288-291` (timing written back). -/
+
+/-- allowed values of a restricted parameter: a set of strings, or a single `str`
+(`'acodec': 'mp4a'`), on which Python's `in` is a substring test and `len` counts characters -/
+inductive Allowed where
+  | set (l : List String)
+  | text (s : String)
+deriving Repr
+
+/-- one entry of `manifest_map` (emitted by `harness/gen_manifests.py`) -/
+structure ManifestRow where
+  /-- key of `manifest_map` (`hand_made.mpd`) -/
+  key : String
+  name : String
+  /-- `DashManifest.features`, sorted -/
+  features : List String
+  /-- `DashManifest.restrictions`: cgi name → allowed values -/
+  restrictions : List (String × Allowed)
+  segmentTimeline : Bool
+deriving Repr
+
+/-- literal name sets and limits of the filters (emitted by `harness/gen_manifests.py`) -/
+structure FilterConsts where
+  featureControlled : List String
+  liveOnly : List String
+  drmUnused : List String
+  maxTimeSpan : Nat
+  maxEventCount : Nat
+  eventTypes : List String
+deriving Repr
+
+/-- Python `p in s` on two `str` -/
+def isInfix (p : Bytes) : Bytes → Bool
+  | [] => p.isEmpty
+  | b :: r => startsWith p (b :: r) || isInfix p r
+
+def Allowed.has (a : Allowed) (v : Bytes) : Bool :=
+  match a with
+  | .set l => l.any (fun x => ascii x == v)
+  | .text s => isInfix v (ascii s)
+
+def Allowed.len : Allowed → Nat
+  | .set l => l.length
+  | .text s => s.length
+
+/-- `list(allowed_values)[0]` when `len(allowed_values) == 1` -/
+def Allowed.first : Allowed → Bytes
+  | .set l => ascii (l.headD "")
+  | .text s => (ascii s).take 1
+
+def setArg (args : List (Bytes × Bytes)) (k v : Bytes) : List (Bytes × Bytes) :=
+  args.map (fun p => if p.1 == k then (k, v) else p)
+
+/-- one iteration of the restriction loop (base.py:101-111) -/
+def restrictStep (args : List (Bytes × Bytes)) (kr : String × Allowed) : List (Bytes × Bytes) :=
+  match args.lookup (ascii kr.1) with
+  | none => args
+  | some v =>
+    if kr.2.has v then args
+    else if kr.2.len = 1 then setArg args (ascii kr.1) kr.2.first
+    else args.filter (fun p => p.1 != ascii kr.1)
+
+def applyRestrictions (rs : List (String × Allowed)) (args : List (Bytes × Bytes)) : List (Bytes × Bytes) :=
+  rs.foldl restrictStep args
+
+section handlers
+variable {DT : Type} [DecidableEq DT] (C : DTCodec DT)
+
+/-- index of the field called `name` (`prefix.full_name` for sub-options) -/
+def fieldIdx (tbl : List OptionRow) (name : String) : Option Nat :=
+  tbl.findIdx? (fun r => r.fieldName == name)
+
+def getField (tbl : List OptionRow) (o : Nat → Val DT) (name : String) : Val DT :=
+  match fieldIdx tbl name with
+  | some i => o i
+  | none => .none
+
+def setFieldByName (tbl : List OptionRow) (o : Nat → Val DT) (name : String) (v : Val DT) : Nat → Val DT :=
+  match fieldIdx tbl name with
+  | some i => setField o i v
+  | none => o
+
+/-- `OptionsRepository.get_default_options()` (repository.py:161-188) -/
+def globalDefault (tbl : List OptionRow) (i : Nat) : Val DT :=
+  match tbl[i]? with
+  | some r => (match defaultVal C r with | .ok v => v | .error _ => .none)
+  | none => .none
+
+/-- `defaults.clone(**stream.defaults)` (base.py:97-99): the stream's own defaults win -/
+def streamDefaults (g : Nat → Val DT) (sd : List (Nat × Val DT)) : Nat → Val DT :=
+  fun i => (sd.lookup i).getD (g i)
+
+/-- an injected-error position must be a segment number or a time (base.py:158-161) -/
+def posOk : Pos DT → Bool
+  | .nothing => false
+  | _ => true
+
+def errsOk (v : Val DT) : Bool :=
+  match v with
+  | .errs l => l.all (fun e => posOk e.2)
+  | _ => true
+
+/-- a `vcorrupt` item: `int(item, 10)`, else `from_isodatetime(item)` (base.py:153-157) -/
+def corruptItemOk (item : Bytes) : Bool :=
+  match pyInt item with
+  | some _ => true
+  | none =>
+    match parseDT C item with
+    | .ok (some _) => true
+    | _ => false
+
+def intOf (v : Val DT) : Option Int :=
+  match v with
+  | .int z => some z
+  | _ => none
+
+/-- the per-event checks (base.py:162-185) -/
+def eventOk (K : FilterConsts) (tbl : List OptionRow) (o : Nat → Val DT) (name : Bytes) : Bool :=
+  match K.eventTypes.find? (fun e => ascii e == name) with
+  | none => true                 -- unknown event names are ignored by the EventFactory
+  | some e =>
+    let f (k : String) := intOf (getField tbl o (e ++ "." ++ k))
+    (match f "count" with | some z => decide (z ≤ (K.maxEventCount : Int)) | none => true) &&
+    (match f "timescale" with | some z => decide (1 ≤ z) | none => true) &&
+    (match f "duration" with | some z => decide (0 ≤ z) | none => true) &&
+    (match f "version" with | some z => z == 0 || z == 1 | none => true)
+
+def spanOk (K : FilterConsts) (v : Val DT) : Bool :=
+  match v with
+  | .int z => decide (z.natAbs ≤ K.maxTimeSpan)
+  | _ => true
+
+/-- base.py:131-133: every selected DRM system is a known one -/
+def drmNamesOk (tbl : List OptionRow) (o : Nat → Val DT) : Bool :=
+  match getField tbl o "drmSelection" with
+  | .drm l => l.all (fun e => drmNames.contains e.1)
+  | _ => true
+
+/-- base.py:134-137: the UTC timing method is one of `UTCMethod.cgi_choices` -/
+def utcMethodOk (tbl : List OptionRow) (o : Nat → Val DT) : Bool :=
+  match getField tbl o "utcMethod" with
+  | .str s =>
+    (match fieldIdx tbl "utcMethod" with
+     | some i => (match tbl[i]? with
+        | some r => (r.choices.getD []).any (fun c => match c with | some t => ascii t == s | none => false)
+        | none => false)
+     | none => false)
+  | _ => true
+
+/-- base.py:138-152: `None` → the global default; a date-time must be a point in time and is made aware -/
+def astStep (tbl : List OptionRow) (o : Nat → Val DT) : Except Err (Nat → Val DT) :=
+  match fieldIdx tbl "availabilityStartTime" with
+  | none => .ok o
+  | some i =>
+    match o i with
+    | .none => .ok (setField o i (globalDefault C tbl i))
+    | .dt d =>
+      (match C.check d with
+       | some d' => .ok (setField o i (.dt d'))
+       | none => .error .valueError)
+    | _ => .ok o
+
+/-- base.py:153-190: injected-error positions, event limits, time spans -/
+def restOk (K : FilterConsts) (tbl : List OptionRow) (o : Nat → Val DT) : Bool :=
+  ["audioErrors", "manifestErrors", "textErrors", "videoErrors"].all (fun n => errsOk (getField tbl o n)) &&
+  (match getField tbl o "videoCorruption" with
+   | .list l => l.all (corruptItemOk C)
+   | _ => true) &&
+  (match getField tbl o "eventTypes" with
+   | .list l => l.all (eventOk K tbl o)
+   | _ => true) &&
+  ["clockDrift", "leeway", "minimumUpdatePeriod", "timeShiftBufferDepth"].all
+    (fun n => spanOk K (getField tbl o n))
+
+/-- `RequestHandlerBase.check_option_values` (base.py:124-190): a ValueError (→ 400) for values
+the parser accepts but no response can be produced from; the only change it makes is to
+availabilityStartTime (`None` → the global default, a date-time without zone → UTC) -/
+def checkOptionValues (K : FilterConsts) (tbl : List OptionRow) (o : Nat → Val DT) :
+    Except Err (Nat → Val DT) :=
+  if drmNamesOk tbl o && utcMethodOk tbl o then
+    match astStep C tbl o with
+    | .error e => .error e
+    | .ok o' => if restOk C K tbl o then .ok o' else .error .valueError
+  else .error .valueError
+
+/-- is the option one that `remove_unsupported_features` resets for a template with these features?
+(`todo = {…} - supported_features`, names of top-level fields) -/
+def dropsOption (K : FilterConsts) (features : List String) (r : OptionRow) : Bool :=
+  r.pfx == "" && K.featureControlled.contains r.full && !features.contains r.full
+
+/-- `OptionsContainer.remove_unsupported_features` (container.py:218-227): a controlled option the
+template does not list goes back to its default -/
+def removeUnsupported (K : FilterConsts) (tbl : List OptionRow) (features : List String)
+    (dflt : Nat → Val DT) (o : Nat → Val DT) : Nat → Val DT :=
+  fun i =>
+    match tbl[i]? with
+    | some r => if dropsOption K features r then dflt i else o i
+    | none => o i
+
+/-- `RequestHandlerBase.calculate_options` (base.py:91-116) on already de-duplicated arguments -/
+def calculateOptions (K : FilterConsts) (tbl : List OptionRow) (mode : Bytes)
+    (args : List (Bytes × Bytes)) (dflt : Nat → Val DT)
+    (features : Option (List String)) (restrictions : Option (List (String × Allowed))) :
+    Except Err (Nat → Val DT) :=
+  let args' := match restrictions with
+    | some rs => applyRestrictions rs args
+    | none => args
+  match convertOptions C tbl dflt args' with
+  | .error e => .error e
+  | .ok o =>
+    match checkOptionValues C K tbl o with
+    | .error e => .error e
+    | .ok o1 =>
+      let o2 := match features with
+        | some f => removeUnsupported K tbl f dflt o1
+        | none => o1
+      .ok (setFieldByName tbl o2 "mode" (.str mode))
+
+/-- `OptionsContainer.remove_unused_parameters(mode)` (container.py:229-262).  `remove_field` acts on
+the top-level container only.  The DRM branches pass names (`playreadyPiff`, `marlinLicenseUrl` …,
+`K.drmUnused`) that no top-level field carries, so they are inert in the code; the model removes a
+top-level field with such a name unconditionally, and `table_drm_unused_names_inert` (Props/C07)
+shows there is none – if a field is ever given such a name the obligation breaks instead of the
+model silently diverging. -/
+def removeUnused (K : FilterConsts) (tbl : List OptionRow) (mode : Bytes) (o : Nat → Val DT) : Opts DT :=
+  fun i =>
+    match tbl[i]? with
+    | some r =>
+      if r.pfx == "" &&
+          ((mode != ascii "live" && K.liveOnly.contains r.full) || K.drmUnused.contains r.full) then none
+      else some (o i)
+    | none => some (o i)
+
+def truthy (v : Val DT) : Bool :=
+  match v with
+  | .bool b => b
+  | .none => false
+  | _ => true
+
+/-- why a manifest request is refused before rendering -/
+inductive Reject where
+  | invalidOptions      -- 400 "Invalid CGI parameters"
+  | patchNeedsTimeline  -- 400 "manifest … does not SegmentTimeline"
+deriving DecidableEq, Repr
+
+/-- manifest_requests.py:142-144: MPD patches only exist for live manifests -/
+def forcePatch (tbl : List OptionRow) (mode : Bytes) (o : Nat → Val DT) : Nat → Val DT :=
+  if mode != ascii "live" then setFieldByName tbl o "patch" (.bool false) else o
+
+/-- manifest_requests.py:149-152: the template decides whether a segment timeline is written -/
+def forceTimeline (tbl : List OptionRow) (m : ManifestRow) (o : Nat → Val DT) : Nat → Val DT :=
+  if !m.features.contains "segmentTimeline" then setFieldByName tbl o "segmentTimeline" (.bool false)
+  else if m.segmentTimeline || truthy (getField tbl o "patch") then
+    setFieldByName tbl o "segmentTimeline" (.bool true)
+  else o
+
+/-- the options `ServeManifest.get` hands to `ManifestContext` (manifest_requests.py:132-153) -/
+def serveManifestOptions (K : FilterConsts) (tbl : List OptionRow) (m : ManifestRow) (mode : Bytes)
+    (args : List (Bytes × Bytes)) (dflt : Nat → Val DT) : Except Reject (Opts DT) :=
+  match calculateOptions C K tbl mode args dflt (some m.features) (some m.restrictions) with
+  | .error _ => .error .invalidOptions
+  | .ok o =>
+    if truthy (getField tbl (forcePatch tbl mode o) "patch") && !m.features.contains "segmentTimeline" then
+      .error .patchNeedsTimeline
+    else .ok (removeUnused K tbl mode (forceTimeline tbl m (forcePatch tbl mode o)))
+
+/-- `opts.availabilityStartTime = timing.availabilityStartTime` and the same for the buffer depth
+(manifest_context.py:288-291): an attribute assignment – a removed field stays removed -/
+def withTiming (tbl : List OptionRow) (ast depth : Val DT) (o : Opts DT) : Opts DT :=
+  fun i =>
+    if fieldIdx tbl "availabilityStartTime" = some i then (o i).map (fun _ => ast)
+    else if fieldIdx tbl "timeShiftBufferDepth" = some i then (o i).map (fun _ => depth)
+    else o i
+
+/-- request arguments of a manifest → the query string on the init/media URLs of media type `use`
+(`ServeManifest.get` → `ManifestContext` → `calculate_cgi_parameters` → `append_cgi_params`);
+`ast`/`depth`: what `DashTiming` resolved (live only; `none` = not written back), `ovs`: the
+translated injection lists -/
+def requestMediaQuery (K : FilterConsts) (tbl : List OptionRow) (m : ManifestRow) (mode : Bytes)
+    (args : List (Bytes × Bytes)) (dflt : Nat → Val DT) (timing : Option (Val DT × Val DT))
+    (use : Nat) (ovs : List (String × Bytes)) : Except Reject Bytes :=
+  match serveManifestOptions C K tbl m mode args dflt with
+  | .error e => .error e
+  | .ok o =>
+    let o' := match timing with
+      | some t => withTiming tbl t.1 t.2 o
+      | none => o
+    .ok (mediaQuery C tbl use (fun i => some (dflt i)) o' ovs)
+
+/-- the media handler with its value check: `calculate_options(mode, args, stream)` -/
+def mediaOptionsChecked (K : FilterConsts) (tbl : List OptionRow) (mode : Bytes)
+    (dflt : Nat → Val DT) (url : Bytes) : Except Err (Nat → Val DT) :=
+  calculateOptions C K tbl mode (firstOnly (parseQsl (queryOf url))) dflt none none
+
+end handlers
 
 end DashLive.Options
